@@ -329,11 +329,44 @@ pub fn snapshot_outlives_owner_round(ci: &CleanImage) -> Result<Option<Viol>, St
     let dir = util::fresh_dir("c13s");
     store::write_image(&dir, &ci.img);
     let replay = json!({"kind": "c13", "mode": "snapshot_outlives_owner"});
-    let owner = guarded(|| RaftLog::<V>::open(ci.cfg.to_config(&dir))).map_err(|p| p)?.map_err(|e| e.to_string())?;
+    let mut owner = guarded(|| RaftLog::<V>::open(ci.cfg.to_config(&dir))).map_err(|p| p)?.map_err(|e| e.to_string())?;
     let mut snap = owner.dump_data();
+    // the owner purges two thirds of its entries and has that flushed and acknowledged before it is dropped, so
+    // that chunk files are removed while the snapshot (which was taken before) is alive
+    {
+        use raft_log::api::raft_log_writer::RaftLogWriter;
+        if let Some((id, _)) = ci.entries.get(ci.entries.len() * 2 / 3) {
+            if owner.purge(*id).is_ok() {
+                let fid = trace::next_flush_id();
+                let _ = owner.flush(Some(crate::store::AckCb::new(fid)));
+                let _ = trace::wait_ack(fid, 60_000);
+                owner.wait_worker_idle();
+            }
+        }
+    }
     drop(owner);
     let mut res = None;
+    // C14: the owner got its acknowledgement and was dropped - from now on only a new owner may change the directory.
+    // A new owner is opened and kept; then the old instance's snapshot is dropped: no chunk file may appear or vanish.
+    if let Ok(Ok(newer)) = guarded(|| RaftLog::<V>::open(ci.cfg.to_config(&dir))) {
+        let before: Vec<u64> = store::list_chunks(&dir).into_iter().map(|c| c.0).collect();
+        let s2 = std::mem::replace(&mut snap, newer.dump_data());
+        drop(s2);
+        let after: Vec<u64> = store::list_chunks(&dir).into_iter().map(|c| c.0).collect();
+        if before != after {
+            res = Some(Viol {
+                prop: "C14".into(),
+                sig: "C14:directory_changed_after_drop:by_dropping_a_snapshot_of_the_old_instance".into(),
+                text: format!("the store was dropped after its last acknowledged flush and the directory re-opened; dropping a dump_data() snapshot of the OLD instance then changed the chunk files from {:?} to {:?} underneath the new instance", before, after),
+                replay: replay.clone(),
+            });
+        }
+        drop(newer);
+    }
     for as_dump in [false, true] {
+        if res.is_some() {
+            break;
+        }
         match try_open(&dir, &ci.cfg, as_dump) {
             Ok(true) => {}
             Ok(false) => {
